@@ -2269,6 +2269,8 @@ def replay(ctx, rep, case):
                 print('  model:', ctx.drive([line('alias_ctor_route', x)])[0], '| impl:', impl)
         except Exception as e:  # noqa: BLE001
             print('  model: <driver unavailable>', e)
+    elif part == 'ctor-two-spellings':
+        print('  outcome:', ar.run_two_spellings_case(ctx, rep, case, []))
     elif part == 'name-form':
         tc = []
         print('  regime:', ar.run_form_case(ctx, rep, {k: v for k, v in case.items() if k != 'resolve_form'}, tc))
